@@ -76,6 +76,9 @@ func (c *Ctx) intSort() string {
 func (c *Ctx) fresh(hint, sort string) string {
 	c.n++
 	name := smtSym(hint) + "!" + fmt.Sprint(c.n)
+	if name == "key!2" || name == "key!3" {
+		name = "v." + name // key!2 / key!3 are the tuple-key encoders
+	}
 	c.decls = append(c.decls, fmt.Sprintf("(declare-const %s %s)", name, sort))
 	if strings.Contains(sort, SStr) {
 		c.usesStr = true
